@@ -56,6 +56,7 @@ Section PubInv.
     i_msg2 : forall p m, pmsg st p = Some m -> p < npub st;
     i_pn0 : forall p, p < npub st -> pn0 st p <= nsub st;
     i_pt0 : forall p, p < npub st -> pt0 st p <= now st;
+    i_open : forall p, popen st p = true -> p < npub st;
     (* filters *)
     i_acc : forall p s m, pmsg st p = Some m -> pair st p s <> PNone ->
                           (pair st p s = PFiltered <-> s_filt (subs st s) m = false);
@@ -102,7 +103,8 @@ Section PubInv.
 
   Ltac use_inv I :=
     pose proof (i_bnd _ I) as Ibnd; pose proof (i_msg1 _ I) as Imsg1; pose proof (i_msg2 _ I) as Imsg2;
-    pose proof (i_pn0 _ I) as Ipn0; pose proof (i_pt0 _ I) as Ipt0; pose proof (i_acc _ I) as Iacc;
+    pose proof (i_pn0 _ I) as Ipn0; pose proof (i_pt0 _ I) as Ipt0; pose proof (i_open _ I) as Iopen;
+    pose proof (i_acc _ I) as Iacc;
     pose proof (i_buf _ I) as Ibuf; pose proof (i_bufc _ I) as Ibufc; pose proof (i_nodup _ I) as Inodup;
     pose proof (i_cap _ I) as Icap; pose proof (i_cbF _ I) as IcbF; pose proof (i_cbFn _ I) as IcbFn;
     pose proof (i_cbT _ I) as IcbT; pose proof (i_cbTn _ I) as IcbTn; pose proof (i_dl _ I) as Idl;
@@ -120,6 +122,9 @@ Section PubInv.
           lazymatch goal with _ : p < npub st |- _ => fail | _ => idtac end;
           let a := fresh in let b := fresh in
           assert (p < npub st /\ s < nsub st) as [a b] by (apply Ibnd; exact H)
+      | Iopen : forall p, popen ?st p = true -> _, H : popen ?st ?p = true |- _ =>
+          lazymatch goal with _ : p < npub st |- _ => fail | _ => idtac end;
+          pose proof (Iopen _ H)
       | Imsg2 : forall p m, pmsg ?st p = Some m -> _, H : pmsg ?st ?p = Some _ |- _ =>
           lazymatch goal with _ : p < npub st |- _ => fail | _ => idtac end;
           pose proof (Imsg2 _ _ H)
